@@ -12,11 +12,20 @@ RULE = ("the real qmail-queue main() (ASan+UBSan build of the working tree) runs
         "well-formed control) x 3 variants (tiny message unchunked; 300 bytes with 30..49 recipients in reads of 100; reads of 1 byte) - so that the calls "
         "made inside cleanup() (ftruncate, unlink intd, unlink mess) are faulted too; every second fault after every first fault on two well-formed "
         "and 11 (thorough: 22) malformed inputs; %s seeded random cases with at most one fault + %s random inputs (half malformed) with a chain of 1..3 "
-        "faults. Every system-call trace is replayed through the Lean acceptor QueueInject.accept (first rejected "
-        "event = disagreement); for every crash point (all calls; sampled in the middle of traces > 150 calls; fault-sweep cases: from the last fault on, "
+        "faults; SIGALRM (the simulated clock jumps past alarm(DEATH) before the call, the program's own handler runs) at every call index of the three "
+        "well-formed bases and of the 11 shapes x 2 variants - i.e. also between link(intd,todo) and _exit and between the calls of cleanup() - and, on the small "
+        "inputs, at every later index after a first fault (EIO / short write at every index), + %s random inputs with SIGALRM at a random index; failures of library "
+        "calls qsim does not trace, on 3 inputs: chdir (no /var/qmail, no queue), each of the 5 alloc() calls of qmail-queue.c returning 0 (the source is compiled with "
+        "-Dmalloc=qq_malloc), SIGBUS delivered at alloc() #2..#5. uid (ordinary / alias / qmaild / qmails), pid and the instant (1970..2099) are derived from the input bytes. "
+        "Every system-call trace is replayed through the Lean acceptor QueueInject.accept (first rejected "
+        "event = disagreement); for every crash point (every call of traces of up to 150 calls; for longer traces the first 40, the last 60 and every 97th call in between; "
+        "fault-sweep cases: from the last fault on, "
         "the earlier ones being those of the run without that fault, which is a case of its own) x 5 crash resolutions (keep, lose un-fsynced, "
-        "empty, garbage, half) the concrete queue entry is judged by the property oracle (todo visible => complete message+envelope, name=inode; exit status "
-        "vs visibility; leftover states in {nothing, pid, pid+mess, mess, mess+intd} whenever todo is absent; documented exit codes). "
+        "empty, garbage, half) the concrete queue entry is judged by the property oracle (todo visible => complete message+envelope, name=inode, intd and todo one inode; "
+        "exit status vs visibility: a visible entry goes only with exit 0 or with the signal handlers' 52/81; leftover states in {nothing, pid, pid+mess, mess, mess+intd} "
+        "whenever todo is absent). Exit code = documented verdict on the envelope (0/91/11/54) in EVERY run whose trace has no Faulty event (EINTR, short writes, refused "
+        "pid names, failures inside cleanup() or of the trigger pull do not excuse it); after a delivered signal nothing but _exit(52/81); 61/62/51/81 and what they leave for the "
+        "untraced failures; the Received line the program wrote = the documented format for the uid, pid and instant given (calendar: Nq.Datetime.tai), computed by the driver. "
         "non-trivial = distinct (message, envelope, fault list)")
 
 
@@ -41,7 +50,7 @@ def mutate(dis, seed):
             for ck in (0, 1, 100):
                 cases.add("%d %s %s 0 0" % (ck, m, e))
                 for fc in range(1, 45):
-                    for fe in (5, 28, -1, 4):
+                    for fe in (5, 28, -1, 4, -3):
                         cases.add("%d %s %s %d %d" % (ck, m, e, fc, fe))
         try:
             fl = [tuple(int(x) for x in t.split(":")) for t in f.get("fault", "0:0").split("+")]
@@ -58,7 +67,7 @@ def mutate(dis, seed):
 
 
 run_standard("C01", "Nq.Props.C01", "drv_c01", "harness/c01_queue.c", None, [],
-             "300", "4000", {"quick": RULE % (300, 150), "thorough": RULE % (4000, 2000)},
+             "300", "4000", {"quick": RULE % (300, 150, 75), "thorough": RULE % (4000, 2000, 1000)},
              "QueueInject.accept (Nq/QueueInject.lean) vs the system-call traces of qmail-queue.c main()",
              builder=builder, mutate=mutate,
              assumptions=["OS semantics of DESIGN.md 1.4 as implemented by harness/sim.c: directory operations atomic and synchronous; file data "
